@@ -89,18 +89,23 @@ Definition air5 (x : Zp 17%Z) (cur nxt : list (Zp 17%Z)) : Zp 17%Z :=
 
 Definition coin5 : @Coin (Zp 17%Z) := mkCoin (e17 6%Z) [e17 7%Z] [e17 11%Z] [e17 3%Z; e17 5%Z].
 
+Fixpoint lleqb (a b : list (list (Zp 17%Z))) : bool :=
+  match a, b with [], [] => true | x :: a', y :: b' => leqb x y && lleqb a' b' | _, _ => false end.
+Lemma lleqb_refl a : lleqb a a = true.
+Proof. induction a; cbn [lleqb]; [reflexivity|]. now rewrite leqb_refl. Qed.
+
 Example stark_complete_nonvacuous :
   exists pf,
-    prove O17 (list (list (Zp 17%Z))) (list (Zp 17%Z)) (fun cs => cs) (fun d => d) air5 (fun _ => repeat (fzero O17) 16)
+    prove O17 (list (list (Zp 17%Z))) unit (list (Zp 17%Z)) (fun cs => cs) (fun _ _ => tt) (fun d _ => d) air5 (fun _ => repeat (fzero O17) 16)
           (mkParams 8 g17 1 false false) coin5 [T5] = Done pf /\
-    verify O17 (list (list (Zp 17%Z))) (list (Zp 17%Z)) (fun d x row => leqb row (evals O17 d x))
+    verify O17 (list (list (Zp 17%Z))) unit (list (Zp 17%Z)) (fun d xs rows _ => lleqb rows (map (evals O17 d) xs))
            (fun pf _ xs evs => leqb evs (map (peval O17 pf) xs)) air5 (mkParams 8 g17 1 false false) coin5 pf = None.
 Proof.
-  apply (stark_complete_core O17 L17 (list (list (Zp 17%Z))) (list (Zp 17%Z)) (fun cs => cs)
-           (fun d x row => leqb row (evals O17 d x)) (fun d => d) (fun pf _ xs evs => leqb evs (map (peval O17 pf) xs))
+  apply (stark_complete_core O17 L17 (list (list (Zp 17%Z))) unit (list (Zp 17%Z)) (fun cs => cs) (fun _ _ => tt)
+           (fun d xs rows _ => lleqb rows (map (evals O17 d) xs)) (fun d _ => d) (fun pf _ xs evs => leqb evs (map (peval O17 pf) xs))
            air5 (fun _ => repeat (fzero O17) 16) 8 1 16 g17 [e17 3%Z; e17 5%Z]) with (dbg := false) (Q := []).
-  - intros cs x _. apply leqb_refl.
-  - intros d xs _ _ _. apply leqb_refl.
+  - intros cs xs _ _ _ _. apply lleqb_refl.
+  - intros d xs _ _ _ _ _. apply leqb_refl.
   - lia.
   - lia.
   - simpl; lia.
@@ -115,5 +120,8 @@ Proof.
   - intros E. zp_neq E.
   - intros E. zp_neq E.
   - intros x H. exact H.
+  - cbn [c_xs coin5]. constructor; [intros [E|[]]; zp_neq E | constructor; [intros [] | constructor]].
+  - discriminate.
+  - simpl; lia.
   - cbn [c_xs c_z coin5]. intros x [<-|[<-|[]]]; split; intros E; zp_neq E.
 Qed.
